@@ -143,6 +143,7 @@ pub struct Engine {
     pub stdout_closed: bool,
     pub t0: Instant,
     keep_dir: bool,
+    release: std::sync::Arc<std::sync::atomic::AtomicBool>,
 }
 
 pub struct SpawnOpts {
@@ -221,7 +222,7 @@ impl Engine {
                 }
             }
         });
-        Ok(Engine { child, stdin, rx, pid, workdir, transcript: Vec::new(), stdout_closed: false, t0: Instant::now(), keep_dir: false })
+        Ok(Engine { child, stdin, rx, pid, workdir, transcript: Vec::new(), stdout_closed: false, t0: Instant::now(), keep_dir: false, release: Default::default() })
     }
 
     /// Record the send event, then write the line (history at the client boundary).
@@ -244,6 +245,36 @@ impl Engine {
             let _ = si.flush();
         }
         t
+    }
+
+    /// Record a line as sent without writing it (the bytes go out through `write_async`).
+    pub fn note_sent(&mut self, line: &str) {
+        self.transcript.push(Event { t: Instant::now(), dir: Dir::Sent, line: line.to_string() });
+    }
+
+    /// Hand standard input to a helper thread that writes the given pieces (optionally pausing
+    /// between them) and then either closes the stream or parks it until the engine is dropped.
+    pub fn write_async(&mut self, pieces: Vec<Vec<u8>>, close: bool, pause: Option<Duration>) -> std::thread::JoinHandle<()> {
+        let stdin = self.stdin.take();
+        let release = self.release.clone();
+        std::thread::spawn(move || {
+            if let Some(mut si) = stdin {
+                for p in &pieces {
+                    if si.write_all(p).is_err() {
+                        return;
+                    }
+                    let _ = si.flush();
+                    if let Some(d) = pause {
+                        std::thread::sleep(d);
+                    }
+                }
+                // keep the stream open until the engine is killed / dropped
+                while !close && !release.load(Ordering::Relaxed) {
+                    std::thread::sleep(Duration::from_millis(5));
+                }
+                drop(si);
+            }
+        })
     }
 
     fn absorb(&mut self, item: (Instant, Dir, Option<String>)) -> Option<usize> {
@@ -367,6 +398,7 @@ impl Engine {
     }
 
     pub fn kill(&mut self) {
+        self.release.store(true, Ordering::Relaxed);
         let _ = self.child.kill();
         let _ = self.child.wait();
     }
